@@ -1480,11 +1480,11 @@ fn candidate_sigs(node: &Value) -> Vec<&'static str> {
     "rare_terms" => out.push("aggs.threshold-per-segment.rare_terms"),
     "histogram" if node.get("min_doc_count").and_then(|m| m.as_u64()).unwrap_or(0) >= 2 => out.push("aggs.threshold-per-segment.histogram"),
     "date_histogram" => {
-      if is_quarter(node) {
-        out.push("date_histogram.quarter-day31");
-      }
       if fill_quirk(node) {
         out.push("date_histogram.calendar-offset-fill");
+      }
+      if is_quarter(node) {
+        out.push("date_histogram.quarter-day31");
       }
       if node.get("min_doc_count").and_then(|m| m.as_u64()).unwrap_or(0) >= 2 {
         out.push("aggs.threshold-per-segment.date_histogram");
@@ -1525,6 +1525,24 @@ fn sees_may31(node: &Value, docs: &[Doc]) -> bool {
     let (_, m, d) = civil_from_days((v - off).div_euclid(86_400_000));
     m == 5 && d == 31
   })
+}
+
+/// all instances (one per parent bucket) of the node at `path` in a view
+fn instances_at(view: &Value, path: &[String]) -> Vec<Value> {
+  let mut cur: Vec<Value> = vec![view.clone()];
+  for p in &path[1..] {
+    cur = cur.iter().flat_map(|c| c["buckets"].as_array().cloned().unwrap_or_default()).filter_map(|b| b["subs"].get(p).cloned()).collect();
+  }
+  cur
+}
+
+/// the two views agree on the buckets that hold documents, at every instance of the node
+fn same_nonempty_buckets(a: &Value, b: &Value, path: &[String]) -> bool {
+  let (ia, ib) = (instances_at(a, path), instances_at(b, path));
+  let shape = |v: &Value| -> Vec<Value> {
+    v["buckets"].as_array().cloned().unwrap_or_default().iter().filter(|x| x["count"].as_u64().unwrap_or(0) > 0).map(|x| json!([x["key"], x["count"]])).collect()
+  };
+  ia.len() == ib.len() && ia.iter().zip(ib.iter()).all(|(x, y)| values_close(&json!(shape(x)), &json!(shape(y))))
 }
 
 /// calendar interval + offset + (extended or hard) bounds
@@ -1771,8 +1789,9 @@ impl Prop for C12 {
           let single_ok = built.iter().zip(readers.iter()).filter(|(b, _)| b.segs.len() == 1).all(|(_, r)| impl_views(r, query, &only_this).map(|(v, _)| path_ok(&mt(&v, &only_this), &want_o)).unwrap_or(false));
           let relaxed_ok = readers.iter().all(|r| impl_views(r, query, &relaxed).map(|(v, _)| path_ok(&mt(&v, &relaxed), &want_r)).unwrap_or(false));
           if cand == "date_histogram.calendar-offset-fill" {
-            // independent of the layout: without the offset every layout is right
-            relaxed_ok
+            // independent of the layout: without the offset every layout is right, and only
+            // buckets without documents differ
+            relaxed_ok && same_nonempty_buckets(&g, &w, &d.path)
           } else if cand == "date_histogram.quarter-day31" {
             // independent of the layout: a 31st of May is involved, and by month all is right
             relaxed_ok && sees_may31(&node, &docs)
